@@ -143,7 +143,7 @@ def qsv_equal(a, b):
     return False
 
 
-PRELUDE = '''From VF Require Import Base.Prelude Gen.Enums Gen.Configs Gen.Scopes Model.Recipe Model.Check Model.Graph Model.Plan.
+PRELUDE = '''From VF Require Import Base.Prelude Gen.Enums Gen.Configs Gen.Scopes Model.Recipe Model.Check Model.Graph Model.Plan Model.Pipeline.
 Open Scope Z_scope.
 Definition mk_matches (t : list (Z * Z)) (r s : Z) : bool :=
   existsb (fun p => Z.eqb (fst p) r && Z.eqb (snd p) s) t.
@@ -158,6 +158,12 @@ Definition run_case (c : case_t) : list Z :=
   let '(m, rules, mt, sct, scopes, stats) := c in
   flat (Jres (fun r => JL [Jlist J_tplan (fst r); J_store (snd r)])
              (plan_checked (mk_matches mt) rules (mk_scope_id sct) m scopes stats)).
+(* interface E2: the WHOLE pipeline as one model function; parameter-equality
+   classes are VALUE classes supplied as a table aligned with terms_of *)
+Definition run_case2 (ct : case_t * list Z) : list Z :=
+  let '(m, rules, mt, sct, scopes, stats) := fst ct in
+  flat (Jres (fun r => J_model (fst r))
+             (pipeline_cls (table_class (snd ct)) (mk_matches mt) rules (mk_scope_id sct) m scopes stats)).
 '''
 
 
@@ -192,6 +198,10 @@ def main():
     except Exception as e:  # pylint: disable=broad-except
       impl = ('err', e)
       dist['impl_raises:' + cg.classify_raise(e)] += 1
+    try:
+      qout = ('ok', qt.quantize(copy.deepcopy(stats0)).quantized_model)
+    except Exception as e:  # pylint: disable=broad-except
+      qout = ('err', e)
     scopes = op_scopes(m)
     adj = []
     for g in m.subgraphs:
@@ -228,7 +238,7 @@ def main():
     lit = (f'({model_lit}, {c_state(rm, rid, oid)}, {vlib.coq_list(pairs)}, '
            f'{vlib.coq_list(tok_rows)}, '
            f'{vlib.coq_list([vlib.coq_list([vlib.coq_bool(b) for b in x]) for x in adj])}, {st_lit})')
-    cases.append((lit, ctx, m, stats0, caller, impl, desc))
+    cases.append((lit, ctx, m, stats0, caller, impl, desc, qout))
   shards = vlib.shard(list(range(len(cases))), 40)
   files = [(f'plan_{si}', PRELUDE +
             'Definition cases : list case_t := [\n'
@@ -240,11 +250,14 @@ def main():
   mism = []
   samples = []
   terms_checked = 0
+  e2_checked = 0
+  jr_by_case = {}
   for si, idxs in enumerate(shards):
     got = results[f'plan_{si}']
     for k, i in enumerate(idxs):
-      lit, ctx, m, stats0, caller, impl, desc = cases[i]
+      lit, ctx, m, stats0, caller, impl, desc, qout = cases[i]
       jr = vlib.unflat(got[k])
+      jr_by_case[i] = jr
       if impl[0] == 'err':
         code = cr.exn_code(impl[1])
         if jr[0] != 1 or jr[1] != code:
@@ -328,8 +341,74 @@ def main():
         nontrivial.add(lit)
       if len(samples) < 3:
         samples.append({'recipe': desc, 'first_tensors': jplans[:2]})
+  # ---------------- round 2: interface E2 ----------------
+  def terms_of(jplans):
+    ts = []
+    for jp in jplans:
+      if jp[1] and jp[1][0][2]:
+        ts.append(jp[1][0][2][0])
+      for je in (jp[2][0] if jp[2] else []):
+        if je[2]:
+          ts.append(je[2][0])
+    return ts
+  cases2 = []
+  for i, c in enumerate(cases):
+    lit, ctx, m, stats0, caller, impl, desc, qout = c
+    jr = jr_by_case.get(i)
+    table, reps = [], []
+    if jr is None or jr[0] != 0:
+      continue        # plan generation itself raised: outcome already compared by interface P
+    if True:
+      ev2 = TermEval(ctx, m, stats0 or {})
+      try:
+        for t in terms_of(jr[1][0]):
+          p_ = ev2.param(t, 0, 0)
+          for ci, q_ in enumerate(reps):
+            if q_ == p_:
+              table.append(ci)
+              break
+          else:
+            reps.append(p_)
+            table.append(len(reps) - 1)
+      except Exception:  # pylint: disable=broad-except
+        table, reps = None, None
+    if table is None:
+      continue
+    cases2.append((i, f'({lit}, {cg.c_zlist(table)})', reps))
+  shards2 = vlib.shard(list(range(len(cases2))), 40)
+  files2 = [(f'pipe_{si}', PRELUDE + 'Definition cases : list (case_t * list Z) := [\n'
+             + ';\n'.join(cases2[j][1] for j in idxs) +
+             '\n].\nEval vm_compute in (map run_case2 cases).\n')
+            for si, idxs in enumerate(shards2)]
+  results2 = vlib.run_case_files(files2, jobs=int(os.environ.get('VERIF_JOBS', '12')), timeout=1200)
+  for si, idxs in enumerate(shards2):
+    got = results2[f'pipe_{si}']
+    for k, j in enumerate(idxs):
+      i, _, reps = cases2[j]
+      lit, ctx, m, stats0, caller, impl, desc, qout = cases[i]
+      jr2 = vlib.unflat(got[k])
+      e2_checked += 1
+      if qout[0] == 'err':
+        if jr2[0] != 1:
+          mism.append({'interface': 'E2', 'case': i, 'recipe': desc, 'what': 'quantize() raises '
+                       f'{type(qout[1]).__name__}: {str(qout[1])[:100]}, the pipeline model returns'})
+        continue
+      if jr2[0] != 0:
+        mism.append({'interface': 'E2', 'case': i, 'recipe': desc, 'what':
+                     f'quantize() returns, the pipeline model raises {jr2}'})
+        continue
+      saved = ctx.params
+      ctx.params = reps
+      try:
+        d = cg.compare_model(ctx, jr2[1], m, og.read(qout[1]))
+      except Exception as ex:  # pylint: disable=broad-except
+        d = [f'comparison failed: {type(ex).__name__}: {ex}']
+      ctx.params = saved
+      if d:
+        mism.append({'interface': 'E2', 'case': i, 'recipe': desc,
+                     'what': 'pipeline model vs quantize() output', 'diffs': d[:4]})
   out = {
-      'interface': 'P', 'evaluations': len(cases),
+      'interface': 'P+E2', 'evaluations': len(cases), 'pipeline_outputs_compared': e2_checked,
       'distinct_nontrivial': len(nontrivial), 'terms_evaluated': terms_checked,
       'n_mismatches': len(mism), 'mismatches': mism[:10],
       'oracle_violations': viol, 'distribution': dict(dist), 'samples': samples,
